@@ -25,6 +25,7 @@ func checkC02(c *Ctx) {
 	c.checkContentUnaltered()
 	c.checkPushAudience()
 	c.checkChannelPushNotDropped()
+	c.checkChannelNameNormalised()
 	// who receives a message and a push is decided on the cached modes: they follow the store
 	c.checkCacheFollowsStore(map[string]bool{"ModeWant": true, "ModeGiven": true})
 	c.checkLocalCopyWrittenBack("C08.3c-local-copy-written-back", map[string]bool{"modeWant": true, "modeGiven": true, "deleted": true, "isChan": true})
